@@ -28,7 +28,9 @@ def plans(ctx):
             R.Plan("rep1", "S_q1", script="ScriptReply1", rich_sel="RichReply", emit_mod=3, max_pw=2, opts=CLS),
             R.Plan("rep2", "S_t1a", script="ScriptReply2", rich_sel="RichReply", emit_mod=25, max_pw=2, opts=CLS),
             # free environment: every order of replies from a login and a dronecheck service
-            R.Plan("q1", "S_q1", emit_mod=35, max_inst=1, max_pw=2, opts=CLSX)]
+            R.Plan("q1", "S_q1", emit_mod=35, max_inst=1, max_pw=2, opts=CLSX),
+            # an id used twice with other clients in between (the second instance's tag extends the first one's), late replies
+            R.Plan("t1di2", "S_t1d", emit_mod=60, max_inst=2, max_pw=1, stray=1, also=R.crowd_also(200))]
     return [R.Plan("rep1", "S_q1", script="ScriptReply1", rich_sel="RichReply", emit_mod=1, max_pw=2, opts=CLS),
             R.Plan("rep2", "S_t1a", script="ScriptReply2", rich_sel="RichReply", emit_mod=8, max_pw=2, opts=CLS),
             R.Plan("rep3", "S_t1b", script="ScriptReply1", rich_sel="RichReply", emit_mod=1, max_pw=2, opts=CLS),
